@@ -2418,6 +2418,19 @@ fn usefulness(patterns: Vec<PatternStack>, q: PatternStack, defs: &Defs) -> Vec<
         vec![q]
     } else if patterns[0].is_empty() || q.is_empty() {
         vec![]
+    } else if patterns
+        .iter()
+        .all(|p| matches!(p.first(), Some(Pattern(PatternEnum::Identifier(_), _, _))))
+    {
+        // No pattern looks at the first column, so it decides nothing: what is missing in the
+        // other columns is missing for every value of the first one. (Splitting the column anyway
+        // doubles the work with every such column: 2^n steps for a binding of n fields.)
+        let rest = patterns.iter().map(|p| p[1..].to_vec()).collect();
+        let mut witnesses = usefulness(rest, q[1..].to_vec(), defs);
+        for witness in witnesses.iter_mut() {
+            witness.insert(0, q[0].clone());
+        }
+        witnesses
     } else {
         let mut witnesses = vec![];
         let meta = MetaInfo {
